@@ -8,6 +8,11 @@
 //!   val <value>       `RETURN <expr> AS v` through ndb_query and through Rust → `eq|ne | <canonical C JSON>`
 //!   prop <value>      a node property written through the Rust API (blob, datetime, non-finite float), read through both
 //!   errc <code>       an erroneous statement → `<C category> <Rust phase>` (prepare | execute)
+//!   wr <code> <n>     a write statement through ndb_execute_write and through Rust prepare → execute_mixed → commit on the
+//!                     twin databases, then the FULL graph dump of both (labels, all properties, relationships with
+//!                     their properties) → `<outcome parity> <dump parity>`; the codes are statements that modify what
+//!                     exists without creating anything (MERGE … ON MATCH SET, SET x.k = x.k, REMOVE of absent keys,
+//!                     FOREACH with zero / non-zero effect, DELETE of nothing) next to ones that do create
 //!   het <shape> <asc|desc>   a read statement whose result COLUMN is heterogeneous across rows (null / scalar / empty
 //!                     list in some rows, node / relationship / path — also nested — in others; ORDER BY decides which
 //!                     comes first) through ndb_query and through Rust → `eq|ne`
@@ -277,6 +282,28 @@ const HET: &[(&str, &str)] = &[
     ("allplainfirst", "MATCH (a:A) OPTIONAL MATCH (a)-[r:R]->(b) RETURN b AS v, r AS w ORDER BY a.k {O}"),
 ];
 
+/// write statements on the start graph (:A k=1)-[:R {w:1}]->(:A k=2), (:A k=3); `{N}` = the op's number
+const WR: &[(&str, &str)] = &[
+    ("mergeset", "MERGE (n:A {k: 1}) ON MATCH SET n.m = {N}"),
+    ("mergemap", "MERGE (n:A {k: 2}) ON MATCH SET n += {m2: {N}, m3: 'x'}"),
+    ("mergelabel", "MERGE (n:A {k: 3}) ON MATCH SET n:Seen"),
+    ("mergeboth", "MERGE (n:A {k: 1}) ON CREATE SET n.c = {N} ON MATCH SET n.u = {N}"),
+    ("mergerel", "MATCH (a:A {k: 1}), (b:A {k: 2}) MERGE (a)-[r:R]->(b) ON MATCH SET r.w = {N}"),
+    ("mergenew", "MERGE (n:A {k: 100 + {N}}) ON CREATE SET n.c = 1 ON MATCH SET n.u = 1"),
+    ("setsame", "MATCH (n:A {k: 1}) SET n.k = n.k"),
+    ("setval", "MATCH (n:A {k: 2}) SET n.t = {N}"),
+    ("remabsent", "MATCH (n:A) REMOVE n.nokey"),
+    ("remabsentset", "MATCH (n:A {k: 3}) REMOVE n.nokey SET n.t = {N}"),
+    ("remreal", "MATCH (n:A {k: 2}) REMOVE n.t"),
+    ("foreachzero", "MATCH (n:A {k: 1}) FOREACH (i IN [] | SET n.f = i)"),
+    ("foreachzeroset", "MATCH (n:A {k: 1}) FOREACH (i IN [] | SET n.f = i) SET n.g = {N}"),
+    ("foreachset", "MATCH (n:A {k: 1}) FOREACH (i IN [1, 2] | SET n.f = i + {N})"),
+    ("delnothing", "MATCH (x:Nope) DELETE x"),
+    ("setlabelhas", "MATCH (n:A {k: 1}) SET n:A"),
+    ("remlabelabsent", "MATCH (n:A {k: 1}) REMOVE n:Nope"),
+    ("create", "CREATE (:C {k: {N}})"),
+];
+
 const ERR_STMTS: &[(&str, &str)] = &[
     ("paren", "MATCH (n RETURN n"),
     ("token", "RETURN 1 +* 2"),
@@ -382,6 +409,24 @@ impl State for S {
                 let rv: Vec<String> = r.iter().filter_map(|row| row.first()).map(|(_, v)| canon_value(v)).collect();
                 // the node written by this op is the last one of the scan
                 format!("{} | {}", if cv.last() == rv.last() && cv.len() == rv.len() { "eq" } else { "ne" }, cv.last().cloned().unwrap_or_default())
+            }
+            "wr" => {
+                let Some((_, tpl)) = WR.iter().find(|(c, _)| Some(c) == ws.get(1)) else { return "bad-op".into() };
+                let Some(n) = ws.get(2).and_then(|t| t.parse::<u32>().ok()) else { return "bad-op".into() };
+                let cy = tpl.replace("{N}", &n.to_string());
+                let c = self.c.exec(&cy, None).map(|_| ()).map_err(|e| category_name(e.category).to_string());
+                let r = self.rust_write(&cy).map_err(|(_, ph)| if ph == "prepare" { "syntax".to_string() } else { "execution".to_string() });
+                let mut dumps: Vec<Vec<String>> = Vec::new();
+                for q in ["MATCH (n) RETURN labels(n) AS l, properties(n) AS p", "MATCH (a)-[r]->(b) RETURN a.k AS a, type(r) AS t, properties(r) AS p, b.k AS b"] {
+                    let mut cd = self.c.query(q, None).map(|v| canon_c_rows(&v)).unwrap_or_else(|e| vec![format!("err {}", e.message)]);
+                    let mut rd = self.rust_read(q).map(|r| canon_rust_rows(&r)).unwrap_or_else(|e| vec![format!("err {}", e.0)]);
+                    cd.sort();
+                    rd.sort();
+                    dumps.push(cd);
+                    dumps.push(rd);
+                }
+                let db = dumps[0] == dumps[1] && dumps[2] == dumps[3];
+                format!("{} {}", if c == r { "eq" } else { "ne" }, if db { "eq" } else { "ne" })
             }
             "het" => {
                 let Some((_, tpl)) = HET.iter().find(|(c, _)| Some(c) == ws.get(1)) else { return "bad-op".into() };
@@ -543,6 +588,15 @@ fn generate(rng: &mut Rng, n: usize, _tier: &str, out: &mut dyn Write) {
     for (code, _) in HET {
         writeln!(out, "het {} asc", code).unwrap();
         writeln!(out, "het {} desc", code).unwrap();
+    }
+    // write statements that change what exists without creating anything, each followed by a full dump comparison
+    for round in 0..3 {
+        writeln!(out, "#case wr{}", round).unwrap();
+        let mut k = 0;
+        for _ in 0..24 {
+            k += 1;
+            writeln!(out, "wr {} {}", rng.pick(WR).0, k).unwrap();
+        }
     }
     let mut produced = 0;
     let mut case = 0;
